@@ -922,3 +922,125 @@ Proof.
       * apply (IH _ B [gen_name B] j); [|now left|assumption|assumption].
         eapply clean_K_sub; [exact H2|]. intros k [<-|[]]. now left.
 Qed.
+
+(* ================================================================ the repair inside a read-write GetMeta *)
+
+Lemma clean_unlink s A B K i0 n : clean s A B K i0 -> n <> s_CURRENT -> ~ In n K -> clean (fapply s (OUnlink n)) A B K i0.
+Proof.
+  intros C N1 HK. cbn [fapply]. destruct (lookup (ents s) n) as [x|] eqn:E; [|exact C].
+  assert (forall m i, lookup (remove_at (ents s) n) m = Some i -> lookup (ents s) m = Some i) as Hr.
+  { intros m i. rewrite lookup_remove_at. destruct (beq n m); [discriminate|auto]. }
+  constructor; cbn [ents dents pdir inos next]; try apply C.
+  - intros a b i H1 H2. apply Hr in H1, H2. exact (k_inj _ _ _ _ _ C _ _ _ H1 H2).
+  - intros a i H. apply Hr in H. eapply (k_bnd_e _ _ _ _ _ C); eassumption.
+  - intros a i H. apply in_app_or in H. destruct H as [H|[H|[]]]; [now apply (k_bnd_p _ _ _ _ _ C) in H|discriminate].
+  - intros a i Ha Hl. apply Hr in Hl. destruct (k_sep _ _ _ _ _ C a i Ha Hl) as [S1 S2]. split; [exact S1|].
+    intros z Hin. apply in_app_or in Hin. destruct Hin as [Hin|[Hin|[]]]; [now apply (S2 z)|discriminate].
+  - apply Forall_app. split; [apply C|]. constructor; [|constructor]. cbn [okop]. auto.
+  - rewrite lookup_remove_at, beq_neq by assumption. apply C.
+  - intros k Hk. apply has_lookup. rewrite lookup_remove_at, beq_neq by (intro X; subst; contradiction).
+    apply has_lookup. now apply (k_keep_e _ _ _ _ _ C).
+  - intros z i H. apply Hr in H. exact (k_pend_e _ _ _ _ _ C z i H).
+Qed.
+
+Lemma fapply_all_app s a b : fapply_all s (a ++ b) = fapply_all (fapply_all s a) b.
+Proof. unfold fapply_all. apply fold_left_app. Qed.
+
+Lemma clean_unlinks A B K i0 l : (forall q, In q l -> exists z, q = pend_name z) ->
+  forall s k, clean s A B K i0 -> clean (fapply_all s (firstn k (map OUnlink l))) A B K i0.
+Proof.
+  induction l as [|q l IH]; intros Hl s k C.
+  - cbn. now rewrite firstn_nil.
+  - destruct k as [|k]; [exact C|]. cbn [map firstn fapply_all fold_left].
+    apply (IH (fun q' H => Hl q' (or_intror H))). destruct (Hl q (or_introl eq_refl)) as (z & ->).
+    apply clean_unlink; [assumption|apply pend_name_not_current|].
+    intro X. apply (k_Knf _ _ _ _ _ C _ X). right. right. eauto.
+Qed.
+
+Lemma has_vol_view s n : has (vol_view s) n = has (ents s) n.
+Proof. unfold has, vol_view. rewrite lookup_view_of. destruct (lookup (ents s) n); reflexivity. Qed.
+
+(* which file wins on the directory the running process sees *)
+Lemma clean_choice s A B K i0 :
+  clean s A B K i0 -> In (gen_name A) K -> In (gen_name B) K ->
+  int64_ok (fd_num A) = true -> int64_ok (fd_num B) = true ->
+  g_chosen (get_meta_choice (vol_view s)) = Some (s_CURRENT, A) \/
+  (exists q, In q (pend_names (vol_view s)) /\ g_chosen (get_meta_choice (vol_view s)) = Some (q, B) /\
+             (fd_num A < fd_num B)%Z).
+Proof.
+  intros C HKA HKB HiA HiB. set (v := vol_view s).
+  assert (tc_cur (try_currents v [s_CURRENT; s_CURRENT_bak] false false) = Some (s_CURRENT, A)) as Hc.
+  { cbn [try_currents]. unfold try_current at 1. unfold v. rewrite (vol_cur _ _ _ _ _ C), check_meta_content by assumption.
+    rewrite has_vol_view, (k_keep_e _ _ _ _ _ C _ HKA). reflexivity. }
+  unfold get_meta_choice. cbn [g_chosen]. fold v. rewrite Hc.
+  destruct (tc_cur (try_currents v (pend_names v) false false)) as [[q pfd]|] eqn:Ep; [|now left].
+  apply try_currents_some in Ep. destruct Ep as [Hin Hok].
+  destruct (try_current_ok _ _ _ Hok) as (c & Hl & Hch & _).
+  pose proof Hin as Hin'. apply in_pend_names in Hin'. destruct Hin' as (n & z & _ & _ & ->).
+  assert (harmless A B c) as Hh.
+  { unfold v, vol_view in Hl. rewrite lookup_view_of in Hl.
+    destruct (lookup (ents s) (pend_name z)) as [i|] eqn:E; [|discriminate]. cbn [option_map] in Hl. inversion Hl.
+    exact (proj2 (k_pend_e _ _ _ _ _ C z i E)). }
+  destruct (Hh _ Hch) as [->|Hle].
+  - destruct (fd_num B >? fd_num A)%Z eqn:G; [|now left]. right. exists (pend_name z).
+    split; [assumption|split; [reflexivity|]]. now apply Z.gtb_lt in G.
+  - assert ((fd_num pfd >? fd_num A)%Z = false) as -> by (rewrite Z.gtb_ltb; apply Z.ltb_ge; lia). now left.
+Qed.
+
+Lemma firstn_app_cases {X} k (a b : list X) :
+  (k <= length a)%nat /\ firstn k (a ++ b) = firstn k a \/
+  exists k', firstn k (a ++ b) = a ++ firstn k' b.
+Proof.
+  destruct (Nat.le_gt_cases k (length a)) as [H|H].
+  - left. split; [assumption|]. rewrite firstn_app. replace (k - length a)%nat with 0%nat by lia.
+    cbn. now rewrite app_nil_r.
+  - right. exists (k - length a)%nat. rewrite firstn_app, firstn_all2 by lia. reflexivity.
+Qed.
+
+(* GetMeta on a read-write storage, from a settled directory or from one a crash left in the middle of a switch:
+   it answers A or B, a crash at any point of its repair leaves a directory that answers A or B, and the
+   repaired directory is settled on the answer (or, when the pending file did not validate, still open on A). *)
+Theorem repair_safe s A B K i0 :
+  clean s A B K i0 -> In (gen_name A) K -> In (gen_name B) K -> (fd_num A <= fd_num B)%Z ->
+  int64_ok (fd_num A) = true -> int64_ok (fd_num B) = true ->
+  let r := fst (get_meta_ops false (vol_view s)) in
+  let ops := snd (get_meta_ops false (vol_view s)) in
+  (forall k v, crash_image (fapply_all s (firstn k ops)) v -> get_meta_result v = GOk A \/ get_meta_result v = GOk B) /\
+  ((r = GOk A /\ clean (fapply_all s ops) A B K i0) \/ (r = GOk B /\ exists j, clean (fapply_all s ops) B B K j)).
+Proof.
+  intros C HKA HKB Hle HiA HiB. cbn zeta.
+  assert (forall t i X, (X = A \/ X = B) -> clean t X B K i -> forall v, crash_image t v -> get_meta_result v = GOk A \/ get_meta_result v = GOk B) as HG.
+  { intros t i X [-> | ->] Ct v Hv.
+    - eapply good_images; [eapply clean_good; eassumption| | | | | |]; eassumption.
+    - right. destruct (good_images _ _ _ _ _ (clean_good _ _ _ _ _ Ct) HKB HKB (Z.le_refl _) HiB HiB Hv); assumption. }
+  assert (forall q, In q (pend_names (vol_view s)) -> exists z, q = pend_name z) as Hpn.
+  { intros q Hq. apply in_pend_names in Hq. destruct Hq as (n & z & _ & _ & ->). eauto. }
+  rewrite get_meta_ops_unfold.
+  destruct (clean_choice _ _ _ _ _ C HKA HKB HiA HiB) as [Hch|(q & Hq & Hch & Hlt)]; rewrite Hch; cbn [fst snd].
+  - (* CURRENT wins *)
+    rewrite beq_refl. cbn [negb orb andb]. change (g_pend (get_meta_choice (vol_view s))) with (pend_names (vol_view s)).
+    rewrite (set_meta_ops_same _ A (vol_cur _ _ _ _ _ C)). cbn [app].
+    assert (forall k, clean (fapply_all s (firstn k (if negb match pend_names (vol_view s) with [] => true | _ :: _ => false end
+                                                    then map OUnlink (pend_names (vol_view s)) else []))) A B K i0) as Hcl.
+    { intro k. destruct (pend_names (vol_view s)) eqn:E; cbn [negb]; [now rewrite firstn_nil|]. rewrite <- E in *.
+      now apply clean_unlinks. }
+    split.
+    + intros k v. apply (HG _ i0 A); [now left|apply Hcl].
+    + left. split; [reflexivity|]. specialize (Hcl (length (map OUnlink (pend_names (vol_view s))))).
+      destruct (pend_names (vol_view s)) eqn:E; cbn [negb] in *; [exact C|]. rewrite <- E in *.
+      now rewrite firstn_all in Hcl.
+  - (* a pending file naming B wins: the switch is replayed *)
+    assert (A <> B) as Hne by (intro X; subst; lia).
+    assert (beq q s_CURRENT = false) as ->.
+    { destruct (Hpn q Hq) as (z & ->). apply beq_neq, pend_name_not_current. }
+    cbn [negb orb andb]. change (g_pend (get_meta_choice (vol_view s))) with (pend_names (vol_view s)).
+    rewrite (set_meta_ops_switch' _ _ _ _ _ C HiA HiB Hne).
+    destruct (switch_safe s A B K i0 C HKA HKB Hle HiA HiB) as (H1 & (j & H2) & H3).
+    split.
+    + intros k v. destruct (firstn_app_cases k (switch_ops A B) (map OUnlink (pend_names (vol_view s)))) as [[_ ->]|(k' & ->)].
+      * apply H1.
+      * rewrite fapply_all_app. apply (HG _ j B); [now right|]. now apply clean_unlinks.
+    + right. split; [reflexivity|]. exists j. rewrite fapply_all_app.
+      pose proof (clean_unlinks B B K j (pend_names (vol_view s)) Hpn _ (length (map OUnlink (pend_names (vol_view s)))) H2) as X.
+      now rewrite firstn_all in X.
+Qed.
